@@ -88,6 +88,11 @@ CHECKS = {
   "note": "Trusted: my misclosure model and readers; C10 covers the sub-matrix rule used when an observation is deleted from a correlated cluster. One known finding (angular observations are removed with the weighted term) is excluded by tag; equivalence is then checked against what gama really excluded.",
   "technique": "property-based metamorphic testing (Hypothesis): defect injection + reference misclosure model + delete-equivalence through the real binary and a library driver",
  },
+ "C20": {
+  "text": "Generated-input search at two levels. Library: rank-planted singular systems with resolving and provably non-resolving regularisation subsets through the four AdjBase solvers; after the expected bad-regularisation exception every lindep(i) is read and checked with numpy (exactly defect many, deleting them leaves full column rank). Network: (planted) determined networks with planted indeterminable parts (one-distance point, one-direction point, detached distance pair, detached levelling pair) through the real binary with all four algorithms: exactly the planted points are removed and reported, the rest equals the network without them, outputs hold no nan/inf; (free) free networks whose constrained coordinates are reduced until numpy says they cannot fix the datum: no algorithm may print an adjustment of the whole network, outcomes (refused / removed coordinate groups / results) must agree between algorithms.",
+  "note": "Trusted: numpy SVD rank with the gap rule of C01; my network Jacobian for the datum analysis. Known finding: for ill-posed free networks the algorithms remove different points (excluded by tag, well-posed disagreement is still reported).",
+  "technique": "property-based differential testing (Hypothesis) of the four solvers against a numpy rank oracle and of the real binary on networks with planted rank deficiencies",
+ },
  "C12": {
   "text": "Generated-input search: noisy networks with identifiers / descriptions / extern values containing XML specials, non-ASCII and long strings, generated --cov-band, angular unit, language and encoding; one run of the real binary writes XML, HTML, text and Octave; checks: well-formed XML with exact identifiers, gama's own XML reader equal to my reader field by field, HTML reader to HTML precision, text and Octave carrying the same coordinates and v'Pv, compare-xyz and gama-local-deformation on identical and translated epochs.",
   "note": "Trusted: Python expat + my reader as reference, small purpose-built readers of the text/Octave layouts. Two known findings about the HTML reader (entity-split identifiers, non-English labels) are excluded by tag.",
